@@ -315,6 +315,8 @@ func (r *relay) processFrame(f http2.Frame) error {
 			}
 			err = r.continuationState.complete(r.processor(f.StreamID), headers)
 		}
+	case *http2.UnknownFrame:
+		// Frames of unknown types must be ignored and discarded, see RFC 7540 section 4.1.
 	default:
 		err = errors.New("unrecognized frame type")
 	}
